@@ -1,4 +1,5 @@
 """C13 — a successful sync makes the destination a superset of the source and touches nothing else."""
+import json
 import shutil
 
 from vlib import fsutil, oracle
@@ -37,7 +38,7 @@ RULE = (
 CLASSES = [
     "clone_new_job", "merge_existing_job", "nested_dir_recursive", "nested_dir_nonrecursive", "doc_nested_merge",
     "project_doc_merge", "selection_subset", "exclude_hit", "strategy_update_mtime", "doc_copy_mode",
-    "job_level_entry", "schema_gate", "bulk_jobs", "bulk_gt_500", "bulk_dry_run", "stale_backup_leftover", "empty_subdirectories", "name_prefixed_by_internal_file", "job_level_new_job", "noop_uninitialised_source",
+    "job_level_entry", "schema_gate", "bulk_jobs", "bulk_gt_500", "bulk_dry_run", "stale_backup_leftover", "empty_subdirectories", "exclude_list_reused_across_calls", "name_prefixed_by_internal_file", "job_level_new_job", "noop_uninitialised_source",
 ]
 ASSUMPTIONS = [
     "an exclude pattern excludes an entry iff it re.match-es the entry name at its level; only the two exact internal file names are excluded besides",
@@ -168,9 +169,56 @@ def _run_empty_dirs(case, ctx):
         shutil.rmtree(base, ignore_errors=True)
 
 
+def _run_reuse_exclude(case, ctx):
+    """One list of exclude patterns used for two calls in a row (a dry run, then the real thing; or two syncs from two
+    sources): P1 for the jobs the second call clones."""
+    import contextlib
+    import io
+    import os
+
+    import signac
+
+    base = ctx.tmpdir("c13rx")
+    mms = []
+    try:
+        src = signac.init_project(os.path.join(base, "src"))
+        dst = signac.init_project(os.path.join(base, "dst"))
+        for a in (0, 1):
+            j = src.open_job({"a": a}).init()
+            fsutil.write_file(j.fn("f.txt"), b"data %d" % a)
+            fsutil.write_file(j.fn("skip.tmp"), b"tmp")
+            fsutil.write_file(j.fn("signac_job_document.json"), json.dumps({"x": a}).encode())
+        jd = dst.open_job({"a": 0}).init()  # job 0 exists on both sides (merged), job 1 will be cloned
+        patterns = list(case.get("exclude", [r".*\.tmp"]))
+        s2, d2 = signac.Project(src.path), signac.Project(dst.path)
+        with contextlib.redirect_stdout(io.StringIO()):
+            if case.get("first") == "dry":
+                d2.sync(s2, exclude=patterns, dry_run=True, check_schema=False)
+            else:
+                d2.open_job({"a": 0}).sync(s2.open_job({"a": 0}), exclude=patterns)
+            signac.Project(dst.path).sync(signac.Project(src.path), exclude=patterns, check_schema=False)
+        post = sp.snap(dst.path)
+        for a in (0, 1):
+            jid = oracle.job_id({"a": a})
+            got_sp = sp.parse_doc(post.get(f"{sp.WS}/{jid}/{sp.FN_SP}"))
+            if got_sp != {"a": a}:
+                mms.append(Mismatch("p1_statepoint", f"second sync with the same exclude list ({case.get('first')} run first): destination job a={a} has state point {got_sp!r}"))
+            if (post.get(f"{sp.WS}/{jid}/f.txt") or (None, None))[1] != b"data %d" % a:
+                mms.append(Mismatch("p2_missing_top", f"second sync with the same exclude list: f.txt of job a={a} not copied"))
+            if f"{sp.WS}/{jid}/skip.tmp" in post:
+                mms.append(Mismatch("exclude_ignored", f"excluded file skip.tmp of job a={a} was copied"))
+        if sp.parse_doc(post.get(f"{sp.WS}/{oracle.job_id({'a': 1})}/{sp.FN_DOC}")) != {"x": 1}:
+            mms.append(Mismatch("clone_doc", "second sync with the same exclude list: the cloned job came without its document"))
+        return {"mismatches": mms, "classes": ["exclude_list_reused_across_calls"], "nontrivial": True}
+    finally:
+        shutil.rmtree(base, ignore_errors=True)
+
+
 def run_case(case, ctx):
     if "bulk" in case:
         return _run_bulk(case, ctx)
+    if case.get("kind") == "reuse_exclude":
+        return _run_reuse_exclude(case, ctx)
     if case.get("kind") == "empty_dirs":
         return _run_empty_dirs(case, ctx)
     if case.get("kind") == "stale_backup":
@@ -410,6 +458,11 @@ CONSTRUCTED = [
          "src_doc": {"n": {"a": 1, "k": {"q": 1}}, "x": 1}, "dst_doc": {"n": {"b": 2, "k": {"r": [1, 2]}}, "y": 0}},
         {"sp": {"a": 2}, "where": "dst", "files": {"g.bin": _f(None, "\x00\xff\x01")}, "src_doc": None, "dst_doc": {"x": 1}}],
      "src_pdoc": {"x": 1, "n": {"a": 1}}, "dst_pdoc": {"y": 2, "n": {"b": 1}}, "options": _o()},
+    # file names with braces (they end up in log messages)
+    {"jobs": [
+        {"sp": {"a": 1}, "where": "both", "files": {"a{b}.txt": _f("a", None), "sub/{0}": _f("ab", None), "g.bin": _f(None, "b")}, "src_doc": {"x": 1}, "dst_doc": {"y": 0}},
+        {"sp": {"a": 0}, "where": "src", "files": {"a{b}.txt": _f("a", None)}, "src_doc": None, "dst_doc": None}],
+     "src_pdoc": None, "dst_pdoc": None, "options": _o(recursive=True)},
     # same, recursive, through sync_projects
     {"jobs": [
         {"sp": {"a": 1}, "where": "both", "files": {"f.txt": _f("a", None), "g.bin": _f(None, "b"), "sub/h.txt": _f("ab", None), "sub/deep/i.txt": _f(None, "x")},
@@ -483,6 +536,9 @@ def run(ctx):
         "kind": st.just("stale_backup"), "level": st.sampled_from(["job", "project"]), "src_doc": docs, "dst_doc": docs, "stale": docs,
         "doc_sync": st.sampled_from(["bykey_none", "bykey_none", "update"]),
     }), 40 if ctx.tier == "quick" else 400, ctx.apply)
+    for i, c in enumerate([{"kind": "reuse_exclude", "first": "dry"}, {"kind": "reuse_exclude", "first": "job"}]):
+        if (i + 2) % ctx.nworkers == ctx.worker:
+            ctx.apply(c)
     for i, c in enumerate([{"kind": "empty_dirs", "how": "clone"}, {"kind": "empty_dirs", "how": "clone", "entry": "sync_projects"},
                            {"kind": "empty_dirs", "how": "existing"}, {"kind": "empty_dirs", "how": "job"}]):
         if i % ctx.nworkers == ctx.worker:
